@@ -32,7 +32,9 @@ func (t Tail) Simplify() (a any) {
 // Equal returns true if this Object and the other are equal in value.
 func (t Tail) Equal(other Object) bool {
 	if ot, ok := other.(Tail); ok {
-		return t.Value.Equal(ot.Value)
+		// SimpleObject builds ("key" . nil) for a nil or false map value so
+		// Value can be nil.
+		return ObjectEqual(t.Value, ot.Value)
 	}
 	return false
 }
